@@ -10,7 +10,7 @@ promised outputs and the return value must be bitwise identical (= every promise
 result depends on memory the kernel did not write itself).
 """
 from __future__ import print_function
-import os, sys, random, math
+import os, sys, random, math, io, contextlib
 sys.path.insert(0, os.path.dirname(os.path.dirname(os.path.abspath(__file__))))
 import numpy as np
 from common import runner, enginea, kernels
@@ -661,6 +661,7 @@ class C20(object):
         cfg = enginea.draw_cfg(rnd, max_team=32)
         desc = {"entry": name, "vals": vals, "roles": roles, "promise": promise, "cfg": cfg,
                 "gstyle": rnd.choice([0, 0, 1])}
+        desc["f2py_route"] = rnd.random() < 0.3
         if name in self.threadsafe and rnd.random() < 0.35:
             # the pyf declares this kernel threadsafe (GIL released): several caller threads, each with its own
             # arguments, run it at the same time
@@ -729,17 +730,121 @@ class C20(object):
                                           "not fully written, or computed from uninitialised memory" % (an, k, b1.size)}
                         break
         nconc = 0
+        f2 = None
+        if viol is None and desc.get("f2py_route"):
+            viol, f2 = self.exec_f2py(desc, ctx, res[0])
         if viol is None and desc.get("concurrent"):
             viol, nconc = self.exec_concurrent(desc, ctx, res[0])
         st = res[0][2]
         meas = enginea.run_measures(st, cfg)
         meas["kernel"] = {name: 1}
         meas["concurrent_caller_runs"] = 1 if nconc else 0
+        meas["f2py_route"] = {f2: 1} if f2 else {}
         meas["concurrent_callers"] = nconc
         dig = enginea.sha(st["digest"], res[0][0], *[res[0][1][k] for k in sorted(res[0][1])])
         wd = enginea.sha(name, repr(desc["vals"]))
         return {"digest": dig, "sig": "%s/%s" % (wd, sorted(st["team_hist"].items())),
                 "nontrivial": st["steps"] > 0, "viol": viol, "measures": meas}
+
+    FLOAT_REDUCTIONS = ("array_mean_var_cut", "array_mean_var_msk", "array_stats")
+
+    def exec_f2py(self, desc, ctx, strict0):
+        """the same call the way Python callers make it: through the f2py wrapper generated from _cImageD11.pyf, with
+        guard-padded arrays.  The wrapper must hand the kernel arrays of the sizes the kernel uses (guards intact), and
+        in/out arrays and returned values must equal the strict kernel-level call"""
+        sim = ctx.sim
+        name, cfg = desc["entry"], desc["cfg"]
+        mod = sys.modules["ImageD11._cImageD11"]
+        fn = getattr(mod, name)
+        first = (fn.__doc__ or "").splitlines()[0]
+        if "=" in first:
+            rets, call = first.split("=", 1)
+            rets = [r.strip() for r in rets.split(",")]
+        else:
+            rets, call = [], first
+        inner = call[call.index("(") + 1:call.rindex(")")]
+        argnames = [a.strip() for a in inner.replace("[", ",").replace("]", "").split(",") if a.strip()]
+        spec = {a: t for a, t in K[name]["args"]}
+        kwargs, guards, passed = {}, [], {}
+        gs = cfg["garbage_seed"]
+        for idx, an in enumerate(argnames):
+            ct = spec.get(an)
+            if ct is None:
+                return None, "signature-mismatch"
+            if ct.endswith("*"):
+                role = desc["roles"].get(an)
+                if role in ("in", "io"):
+                    a = kernels.to_array(desc["vals"][an], ct)
+                else:
+                    shape = tuple(desc["vals"][an])
+                    # the size the WRAPPER asks for (its docstring), when it can be evaluated from the scalar arguments
+                    import re
+                    m = re.search(r"^%s : .*with bounds \((.*)\)\s*$" % re.escape(an), fn.__doc__ or "", re.M)
+                    if m:
+                        ns_ = {k: v for k, v in desc["vals"].items() if isinstance(v, (int, float))}
+                        ns_.update({"NPROPERTY": NPROPERTY, "NPROPERTY2D": NPROPERTY2D})
+                        try:
+                            dims = tuple(int(eval(x, {"__builtins__": {}}, ns_)) for x in m.group(1).split(","))
+                            # only when the wrapper asks for another SIZE than the kernel needs (splat's pyf, for one,
+                            # names its dimensions (w,h,4) but takes h from axis 0)
+                            if len(dims) == len(shape) and all(d >= 0 for d in dims) and int(np.prod(dims)) != int(np.prod(shape)):
+                                shape = dims
+                        except Exception:
+                            pass
+                    a = enginea.garbage_array(shape, DT[ct], gs + 31 * (idx + 1), desc["gstyle"])
+                if a.size == 0:
+                    return None, "refused(empty)"
+                a, raw, off = kernels.padded(a)
+                guards.append((an, raw, off, a.nbytes))
+                kwargs[an] = a
+                passed[an] = a
+            else:
+                kwargs[an] = desc["vals"][an]
+        enginea.apply_cfg(sim, cfg, strict=0, track_conflicts=0, pct_est=2000, step_cap=30000000)
+        sim.begin_run()
+        try:
+            with contextlib.redirect_stdout(io.StringIO()):
+                out = fn(**kwargs)
+        except Exception as e:
+            # the wrapper's own argument checks refused the call (e.g. zero-size arrays): nothing ran
+            return None, "refused(%s)" % type(e).__name__
+        broken = [an for an, raw, off, nb in guards if not kernels.guards_intact(raw, off, nb)]
+        if broken:
+            return {"class": "oob", "key": name + ":f2py:oob",
+                    "detail": "called through the f2py wrapper, %s wrote outside argument(s) %s (guard bytes overwritten)" %
+                              (name, broken)}, "ran"
+        ret0, prom0 = strict0[0], strict0[1]
+        if not isinstance(out, tuple):
+            out = (out,)
+        got = dict(zip(rets, out))
+        loose = name in self.FLOAT_REDUCTIONS
+
+        def same(a, b):
+            a, b = np.asarray(a), np.asarray(b)
+            if a.shape != b.shape and a.size == b.size:
+                a = a.reshape(b.shape)
+            if a.shape != b.shape:
+                return False
+            if loose:
+                return np.allclose(a.astype(float), b.astype(float), rtol=1e-4, atol=1e-6, equal_nan=True)
+            return a.astype(b.dtype).tobytes() == b.tobytes()
+        for an, want in prom0.items():
+            if an in passed:
+                have = passed[an].ravel()[:want.size]
+            elif an in got:
+                have = np.asarray(got[an]).ravel()[:want.size]
+            else:
+                continue
+            if not same(have, want):
+                return {"class": "wrapper-differs", "key": name + ":f2py:wrapper-differs",
+                        "detail": "output '%s' of %s called through the f2py wrapper differs from the kernel-level call "
+                                  "with the same arguments" % (an, name)}, "ran"
+        if K[name]["ret"] != "void" and name in got and ret0 is not None:
+            if not same(np.array(got[name]), np.array(ret0, dtype=np.asarray(got[name]).dtype)):
+                return {"class": "wrapper-differs", "key": name + ":f2py:wrapper-differs",
+                        "detail": "return value of %s through the f2py wrapper is %r, kernel-level call gives %r" %
+                                  (name, got[name], ret0)}, "ran"
+        return None, "ran"
 
     def exec_concurrent(self, desc, ctx, solo0):
         """each caller's result must equal the result of the same call made alone"""
